@@ -166,4 +166,545 @@ theorem join_spec (l r : Tree K V) (k : K) (v : V) (hl : Bal l) (hr : Bal r) :
       (by simp only [height_node]; omega) (by simp only [height_node]; omega)
     rw [ite_succ_max] at e1
     refine ⟨_, rfl, b1, a1, ?_, ?_⟩ <;> rw [e1] <;> omega
+theorem abs_node_ne_nil (h : Int) (k : K) (v : V) (l r : Tree K V) : abs (.node h k v l r) ≠ [] := by
+  simp [abs]
+
+theorem minBindingUnsafe_spec (l : Tree K V) : ∀ (h : Int) (k : K) (v : V) (r : Tree K V),
+    minBindingUnsafe (.node h k v l r) = (abs (.node h k v l r)).head? := by
+  induction l with
+  | empty => intro h k v r; simp [minBindingUnsafe, abs]
+  | leaf a b => intro h k v r; simp [minBindingUnsafe, abs]
+  | node h' k' v' l' r' ihl _ =>
+    intro h k v r
+    rw [minBindingUnsafe, ihl h' k' v' r']
+    simp [abs, List.head?_append]
+
+theorem removeMinUnsafe_spec (l : Tree K V) : ∀ (h : Int) (k : K) (v : V) (r : Tree K V),
+    Bal (.node h k v l r) →
+    ∃ t', removeMinUnsafe (.node h k v l r) = some t' ∧ Bal t' ∧
+      abs t' = (abs (.node h k v l r)).tail ∧ h - 1 ≤ height t' ∧ height t' ≤ h := by
+  induction l with
+  | empty =>
+    intro h k v r hb
+    obtain ⟨bl, br, hh, d1, d2, nl, nr⟩ := bal_node hb
+    simp only [height_empty] at *
+    exact ⟨r, by simp [removeMinUnsafe], br, by simp [abs], by omega, by omega⟩
+  | leaf a b =>
+    intro h k v r hb
+    obtain ⟨bl, br, hh, d1, d2, nl, nr⟩ := bal_node hb
+    simp only [height_leaf] at *
+    obtain ⟨t', e2, b2, a2, g3, g4, g5⟩ := balanced_spec' .empty r k v (by simp [Bal]) br
+      (by simp only [height_empty]; omega) (by simp only [height_empty]; omega)
+    simp only [height_empty] at *
+    exact ⟨t', by simp [removeMinUnsafe, e2], b2, by simp [a2, abs], by omega, by omega⟩
+  | node h' k' v' l' r' ihl _ =>
+    intro h k v r hb
+    obtain ⟨bl, br, hh, d1, d2, nl, nr⟩ := bal_node hb
+    obtain ⟨l2, e, b1, a1, g1, g2⟩ := ihl h' k' v' r' bl
+    simp only [height_node] at *
+    obtain ⟨t', e2, b2, a2, g3, g4, g5⟩ := balanced_spec' l2 r k v b1 br (by omega) (by omega)
+    refine ⟨t', by rw [removeMinUnsafe]; simp only [e]; exact e2, b2, ?_, by omega, by omega⟩
+    rw [a2, a1]
+    have := abs_node_ne_nil h' k' v' l' r'
+    rw [show abs (Tree.node h k v (Tree.node h' k' v' l' r') r) =
+      abs (Tree.node h' k' v' l' r') ++ (k, v) :: abs r from rfl]
+    cases hx : abs (Tree.node h' k' v' l' r') with
+    | nil => exact absurd hx this
+    | cons x xs => simp
+
+theorem internalMerge_spec (t1 t2 : Tree K V) (h1 : Bal t1) (h2 : Bal t2)
+    (d1 : height t1 ≤ height t2 + 2) (d2 : height t2 ≤ height t1 + 2) :
+    ∃ t, internalMerge t1 t2 = some t ∧ Bal t ∧ abs t = abs t1 ++ abs t2 ∧
+      Max.max (height t1) (height t2) ≤ height t ∧ height t ≤ Max.max (height t1) (height t2) + 1 := by
+  have n1 := height_nonneg t1 h1
+  have n2 := height_nonneg t2 h2
+  cases t1 with
+  | empty => exact ⟨t2, by cases t2 <;> simp [internalMerge], h2, by simp [abs], by simp only [height_empty]; omega, by simp only [height_empty]; omega⟩
+  | leaf a b =>
+    cases t2 with
+    | empty => exact ⟨_, by simp [internalMerge], h1, by simp [abs], by simp only [height_empty, height_leaf]; omega, by simp only [height_empty, height_leaf]; omega⟩
+    | leaf c d =>
+      obtain ⟨t, e, b1, a1, g1, g2, g3⟩ := addMinNode_spec a b (.leaf c d) h2
+      exact ⟨t, by simpa [internalMerge] using e, b1, by simp [a1, abs], by simp only [height_leaf] at *; omega, by simp only [height_leaf] at *; omega⟩
+    | node h k v l r =>
+      obtain ⟨t, e, b1, a1, g1, g2, g3⟩ := addMinNode_spec a b (.node h k v l r) h2
+      exact ⟨t, by simpa [internalMerge] using e, b1, by simp [a1, abs], by simp only [height_leaf, height_node] at *; omega, by simp only [height_leaf, height_node] at *; omega⟩
+  | node h k v l r =>
+    cases t2 with
+    | empty => exact ⟨_, by simp [internalMerge], h1, by simp [abs], by simp only [height_empty, height_node] at *; omega, by simp only [height_empty, height_node] at *; omega⟩
+    | leaf c d =>
+      obtain ⟨t, e, b1, a1, g1, g2, g3⟩ := addMaxNode_spec c d (.node h k v l r) h1
+      exact ⟨t, by simpa [internalMerge] using e, b1, by simp [a1, abs], by simp only [height_leaf, height_node] at *; omega, by simp only [height_leaf, height_node] at *; omega⟩
+    | node h' k' v' l' r' =>
+      have m := minBindingUnsafe_spec l' h' k' v' r'
+      obtain ⟨t2', e, b1, a1, g1, g2⟩ := removeMinUnsafe_spec l' h' k' v' r' h2
+      have ne := abs_node_ne_nil h' k' v' l' r'
+      cases hx : abs (Tree.node h' k' v' l' r') with
+      | nil => exact absurd hx ne
+      | cons x xs =>
+        rw [hx] at m a1
+        simp only [List.head?_cons, List.tail_cons] at m a1
+        obtain ⟨xk, xv⟩ := x
+        simp only [height_node] at *
+        obtain ⟨t, e2, b2, a2, g3, g4, g5⟩ := balanced_spec' (.node h k v l r) t2' xk xv h1 b1
+          (by simp only [height_node]; omega) (by simp only [height_node]; omega)
+        simp only [height_node] at *
+        exact ⟨t, by simp [internalMerge, m, e, e2], b2, by simp [a2, a1], by omega, by omega⟩
+
+theorem concat_spec (t1 t2 : Tree K V) (h1 : Bal t1) (h2 : Bal t2) :
+    ∃ t, concat t1 t2 = some t ∧ Bal t ∧ abs t = abs t1 ++ abs t2 := by
+  cases t1 with
+  | empty => exact ⟨t2, by cases t2 <;> simp [concat], h2, by simp [abs]⟩
+  | leaf a b =>
+    cases t2 with
+    | empty => exact ⟨_, by simp [concat], h1, by simp [abs]⟩
+    | leaf c d =>
+      obtain ⟨t, e, b1, a1, _⟩ := addMinNode_spec a b (.leaf c d) h2
+      exact ⟨t, by simpa [concat] using e, b1, by simp [a1, abs]⟩
+    | node h k v l r =>
+      obtain ⟨t, e, b1, a1, _⟩ := addMinNode_spec a b (.node h k v l r) h2
+      exact ⟨t, by simpa [concat] using e, b1, by simp [a1, abs]⟩
+  | node h k v l r =>
+    cases t2 with
+    | empty => exact ⟨_, by simp [concat], h1, by simp [abs]⟩
+    | leaf c d =>
+      obtain ⟨t, e, b1, a1, _⟩ := addMaxNode_spec c d (.node h k v l r) h1
+      exact ⟨t, by simpa [concat] using e, b1, by simp [a1, abs]⟩
+    | node h' k' v' l' r' =>
+      have m := minBindingUnsafe_spec l' h' k' v' r'
+      obtain ⟨t2', e, b1, a1, g1, g2⟩ := removeMinUnsafe_spec l' h' k' v' r' h2
+      have ne := abs_node_ne_nil h' k' v' l' r'
+      cases hx : abs (Tree.node h' k' v' l' r') with
+      | nil => exact absurd hx ne
+      | cons x xs =>
+        rw [hx] at m a1
+        simp only [List.head?_cons, List.tail_cons] at m a1
+        obtain ⟨xk, xv⟩ := x
+        obtain ⟨t, e2, b2, a2, _⟩ := join_spec (.node h k v l r) t2' xk xv h1 b1
+        exact ⟨t, by simp [concat, m, e, e2], b2, by simp [a2, a1]⟩
+
+theorem pairwise_drop_mid {R : K × V → K × V → Prop} {a b : List (K × V)} {x : K × V}
+    (h : (a ++ x :: b).Pairwise R) : (a ++ b).Pairwise R :=
+  h.sublist (List.Sublist.append (List.Sublist.refl a) (List.sublist_cons_self x b))
+
+theorem remove_spec {cmp : K → K → Int} {rank : K → Int} (hc : Lawful cmp rank) (t : Tree K V) (k : K)
+    (hb : Bal t) (ho : Ordered rank t) :
+    ∃ t', remove cmp t k = some t' ∧ Bal t' ∧ Ordered rank t' ∧
+      (∀ p, p ∈ abs t' ↔ (p ∈ abs t ∧ p.1 ≠ k)) ∧
+      height t - 1 ≤ height t' ∧ height t' ≤ height t := by
+  induction t with
+  | empty => exact ⟨.empty, rfl, hb, ho, by simp [abs], by simp, by simp⟩
+  | leaf k' v' =>
+    have heq := hc.eq k k'
+    simp only [remove]
+    by_cases c0 : cmp k k' = 0
+    · have : k = k' := heq.1 c0
+      subst this
+      exact ⟨.empty, by simp [c0], by simp [Bal], by simp [Ordered, abs], by simp [abs], by simp, by simp⟩
+    · have nk : k' ≠ k := fun e => c0 (heq.2 e.symm)
+      refine ⟨.leaf k' v', by simp [c0], hb, ho, ?_, by simp, by simp⟩
+      intro p; simp only [abs, List.mem_singleton]
+      constructor
+      · intro e; subst e; exact ⟨rfl, nk⟩
+      · exact fun h => h.1
+  | node h k' v' l r ihl ihr =>
+    have hlt := hc.lt k k'; have heq := hc.eq k k'; have hgt := hc.gt k k'
+    obtain ⟨ol, or, bl, br⟩ := ordered_node ho
+    obtain ⟨bll, brr, hh, d1, d2, nl, nr⟩ := bal_node hb
+    simp only [remove]
+    by_cases c0 : cmp k k' = 0
+    · have : k = k' := heq.1 c0
+      subst this
+      obtain ⟨t', e, b1, a1, g1, g2⟩ := internalMerge_spec l r bll brr d1 d2
+      refine ⟨t', by simp [c0, e], b1, ?_, ?_, by simp only [height_node]; omega, by simp only [height_node]; omega⟩
+      · simp only [Ordered, a1]; exact pairwise_drop_mid ho
+      · intro p
+        rw [a1]
+        simp only [abs, List.mem_append, List.mem_cons]
+        constructor
+        · rintro (h1 | h1)
+          · exact ⟨Or.inl h1, fun e => by have := bl p h1; rw [e] at this; omega⟩
+          · exact ⟨Or.inr (Or.inr h1), fun e => by have := br p h1; rw [e] at this; omega⟩
+        · rintro ⟨h1 | h1 | h1, ne⟩
+          · exact Or.inl h1
+          · subst h1; exact absurd rfl ne
+          · exact Or.inr h1
+    · by_cases c1 : cmp k k' < 0
+      · obtain ⟨ll, e, b1, o1, m1, g1, g2⟩ := ihl bll ol
+        obtain ⟨t', e2, b2, a2, g3, g4, g5⟩ := balanced_spec' ll r k' v' b1 brr (by omega) (by omega)
+        have ord : (abs ll ++ (k', v') :: abs r).Pairwise (fun x y => rank x.1 < rank y.1) :=
+          ordered_of_parts o1 or (fun p hp => bl p ((m1 p).1 hp).1) br
+        have nk : k' ≠ k := by intro e; subst e; simp at hlt; omega
+        have lt := hlt.1 c1
+        have mem : ∀ p, p ∈ abs ll ++ (k', v') :: abs r ↔
+            (p ∈ abs l ++ (k', v') :: abs r ∧ p.1 ≠ k) := by
+          intro p
+          have := m1 p
+          simp only [List.mem_append, List.mem_cons]
+          constructor
+          · rintro (h1 | h1 | h1)
+            · exact ⟨Or.inl (this.1 h1).1, (this.1 h1).2⟩
+            · subst h1; exact ⟨Or.inr (Or.inl rfl), nk⟩
+            · exact ⟨Or.inr (Or.inr h1), fun e => by have := br p h1; rw [e] at this; omega⟩
+          · rintro ⟨h1 | h1 | h1, ne⟩
+            · exact Or.inl (this.2 ⟨h1, ne⟩)
+            · exact Or.inr (Or.inl h1)
+            · exact Or.inr (Or.inr h1)
+        by_cases same : l = ll
+        · subst same
+          exact ⟨.node h k' v' l r, by simp [c0, c1, e], hb, ho, by simpa [abs] using mem, by simp only [height_node]; omega, by simp⟩
+        · refine ⟨t', by simp [c0, c1, e, same, e2], b2, by simpa [Ordered, a2] using ord,
+            by simpa [a2, abs] using mem, ?_, ?_⟩ <;> simp only [height_node] <;> omega
+      · have c2 : cmp k k' > 0 := by omega
+        obtain ⟨rr, e, b1, o1, m1, g1, g2⟩ := ihr brr or
+        obtain ⟨t', e2, b2, a2, g3, g4, g5⟩ := balanced_spec' l rr k' v' bll b1 (by omega) (by omega)
+        have ord : (abs l ++ (k', v') :: abs rr).Pairwise (fun x y => rank x.1 < rank y.1) :=
+          ordered_of_parts ol o1 bl (fun p hp => br p ((m1 p).1 hp).1)
+        have nk : k' ≠ k := by intro e; subst e; simp at hgt; omega
+        have gt := hgt.1 c2
+        have mem : ∀ p, p ∈ abs l ++ (k', v') :: abs rr ↔
+            (p ∈ abs l ++ (k', v') :: abs r ∧ p.1 ≠ k) := by
+          intro p
+          have := m1 p
+          simp only [List.mem_append, List.mem_cons]
+          constructor
+          · rintro (h1 | h1 | h1)
+            · exact ⟨Or.inl h1, fun e => by have := bl p h1; rw [e] at this; omega⟩
+            · subst h1; exact ⟨Or.inr (Or.inl rfl), nk⟩
+            · exact ⟨Or.inr (Or.inr (this.1 h1).1), (this.1 h1).2⟩
+          · rintro ⟨h1 | h1 | h1, ne⟩
+            · exact Or.inl h1
+            · exact Or.inr (Or.inl h1)
+            · exact Or.inr (Or.inr (this.2 ⟨h1, ne⟩))
+        by_cases same : r = rr
+        · subst same
+          exact ⟨.node h k' v' l r, by simp [c0, c1, e], hb, ho, by simpa [abs] using mem, by simp only [height_node]; omega, by simp⟩
+        · refine ⟨t', by simp [c0, c1, e, same, e2], b2, by simpa [Ordered, a2] using ord,
+            by simpa [a2, abs] using mem, ?_, ?_⟩ <;> simp only [height_node] <;> omega
+
+/-- the binding found by `split`, as a list -/
+def midList (key : K) (pres : Option V) : List (K × V) :=
+  match pres with
+  | none => []
+  | some w => [(key, w)]
+
+theorem split_spec {cmp : K → K → Int} {rank : K → Int} (hc : Lawful cmp rank) (t : Tree K V) (key : K)
+    (hb : Bal t) (ho : Ordered rank t) :
+    ∃ l pres r, split cmp t key = some (l, pres, r) ∧ Bal l ∧ Bal r ∧
+      abs t = abs l ++ midList key pres ++ abs r ∧
+      (∀ p ∈ abs l, rank p.1 < rank key) ∧ (∀ p ∈ abs r, rank key < rank p.1) := by
+  induction t with
+  | empty => exact ⟨.empty, none, .empty, rfl, hb, hb, by simp [abs, midList], by simp [abs], by simp [abs]⟩
+  | leaf k' v' =>
+    have hlt := hc.lt key k'; have heq := hc.eq key k'; have hgt := hc.gt key k'
+    simp only [split]
+    by_cases c0 : cmp key k' = 0
+    · have : key = k' := heq.1 c0
+      subst this
+      exact ⟨.empty, some v', .empty, by simp [c0], by simp [Bal], by simp [Bal], by simp [abs, midList],
+        by simp [abs], by simp [abs]⟩
+    · by_cases c1 : cmp key k' < 0
+      · exact ⟨.empty, none, .leaf k' v', by simp [c0, c1], by simp [Bal], hb, by simp [abs, midList],
+          by simp [abs], by simp [abs]; exact hlt.1 c1⟩
+      · exact ⟨.leaf k' v', none, .empty, by simp [c0, c1], hb, by simp [Bal], by simp [abs, midList],
+          by simp [abs]; exact hgt.1 (by omega), by simp [abs]⟩
+  | node h k' v' l r ihl ihr =>
+    have hlt := hc.lt key k'; have heq := hc.eq key k'; have hgt := hc.gt key k'
+    obtain ⟨ol, or, bl, br⟩ := ordered_node ho
+    obtain ⟨bll, brr, hh, d1, d2, nl, nr⟩ := bal_node hb
+    simp only [split]
+    by_cases c0 : cmp key k' = 0
+    · have : key = k' := heq.1 c0
+      subst this
+      exact ⟨l, some v', r, by simp [c0], bll, brr, by simp [abs, midList], bl, br⟩
+    · by_cases c1 : cmp key k' < 0
+      · obtain ⟨ll, pres, rl, e, b1, b2, a1, g1, g2⟩ := ihl bll ol
+        obtain ⟨t2, e2, b3, a3, _⟩ := join_spec rl r k' v' b2 brr
+        have lt := hlt.1 c1
+        refine ⟨ll, pres, t2, by simp [c0, c1, e, e2], b1, b3, by simp [abs, a1, a3], g1, ?_⟩
+        intro p hp
+        rw [a3] at hp
+        simp only [List.mem_append, List.mem_cons] at hp
+        rcases hp with h1 | h1 | h1
+        · exact g2 p h1
+        · subst h1; exact lt
+        · have := br p h1; omega
+      · have gt := hgt.1 (by omega)
+        obtain ⟨lr, pres, rr, e, b1, b2, a1, g1, g2⟩ := ihr brr or
+        obtain ⟨t2, e2, b3, a3, _⟩ := join_spec l lr k' v' bll b1
+        refine ⟨t2, pres, rr, by simp [c0, c1, e, e2], b3, b2, by simp [abs, a1, a3], ?_, g2⟩
+        intro p hp
+        rw [a3] at hp
+        simp only [List.mem_append, List.mem_cons] at hp
+        rcases hp with h1 | h1 | h1
+        · have := bl p h1; omega
+        · subst h1; exact gt
+        · exact g1 p h1
+
+theorem filter_spec (f : K → V → Bool) (t : Tree K V) (hb : Bal t) :
+    ∃ t', filter f t = some t' ∧ Bal t' ∧ abs t' = (abs t).filter (fun p => f p.1 p.2) := by
+  induction t with
+  | empty => exact ⟨.empty, rfl, hb, by simp [abs]⟩
+  | leaf k v =>
+    simp only [filter]
+    by_cases c : f k v = true
+    · exact ⟨.leaf k v, by simp [c], hb, by simp [abs, c]⟩
+    · exact ⟨.empty, by simp [c], by simp [Bal], by simp [abs, c]⟩
+  | node h k v l r ihl ihr =>
+    obtain ⟨bll, brr, _⟩ := bal_node hb
+    obtain ⟨newL, e1, b1, a1⟩ := ihl bll
+    obtain ⟨newR, e2, b2, a2⟩ := ihr brr
+    simp only [filter, e1, e2]
+    by_cases c : f k v = true
+    · by_cases same : l = newL ∧ r = newR
+      · obtain ⟨s1, s2⟩ := same
+        subst s1; subst s2
+        refine ⟨.node h k v l r, by simp [c], hb, ?_⟩
+        simp only [abs, List.filter_append, List.filter_cons, c, if_true, ← a1, ← a2]
+      · obtain ⟨t', e3, b3, a3, _⟩ := join_spec newL newR k v b1 b2
+        exact ⟨t', by simp [c, same, e3], b3, by simp [a3, abs, a1, a2, c]⟩
+    · obtain ⟨t', e3, b3, a3⟩ := concat_spec newL newR b1 b2
+      exact ⟨t', by simp [c, e3], b3, by simp [a3, abs, a1, a2, c]⟩
+
+theorem partition_spec (f : K → V → Bool) (t : Tree K V) (hb : Bal t) :
+    ∃ a b, partition f t = some (a, b) ∧ Bal a ∧ Bal b ∧
+      abs a = (abs t).filter (fun p => f p.1 p.2) ∧ abs b = (abs t).filter (fun p => !f p.1 p.2) := by
+  induction t with
+  | empty => exact ⟨.empty, .empty, rfl, hb, hb, by simp [abs], by simp [abs]⟩
+  | leaf k v =>
+    simp only [partition]
+    by_cases c : f k v = true
+    · exact ⟨.leaf k v, .empty, by simp [c], hb, by simp [Bal], by simp [abs, c], by simp [abs, c]⟩
+    · exact ⟨.empty, .leaf k v, by simp [c], by simp [Bal], hb, by simp [abs, c], by simp [abs, c]⟩
+  | node h k v l r ihl ihr =>
+    obtain ⟨bll, brr, _⟩ := bal_node hb
+    obtain ⟨lt, lf, e1, b1, b1', a1, a1'⟩ := ihl bll
+    obtain ⟨rt, rf, e2, b2, b2', a2, a2'⟩ := ihr brr
+    simp only [partition, e1, e2]
+    by_cases c : f k v = true
+    · obtain ⟨x, e3, b3, a3, _⟩ := join_spec lt rt k v b1 b2
+      obtain ⟨y, e4, b4, a4⟩ := concat_spec lf rf b1' b2'
+      exact ⟨x, y, by simp [c, e3, e4], b3, b4, by simp [a3, abs, a1, a2, c], by simp [a4, abs, a1', a2', c]⟩
+    · obtain ⟨x, e3, b3, a3⟩ := concat_spec lt rt b1 b2
+      obtain ⟨y, e4, b4, a4, _⟩ := join_spec lf rf k v b1' b2'
+      exact ⟨x, y, by simp [c, e3, e4], b3, b4, by simp [a3, abs, a1, a2, c], by simp [a4, abs, a1', a2', c]⟩
+
+/-- `t` represents the finite map `m`: invariant + same graph. -/
+def Rel (rank : K → Int) (t : Tree K V) (m : K → Option V) : Prop :=
+  Bal t ∧ Ordered rank t ∧ ∀ q w, (q, w) ∈ abs t ↔ m q = some w
+
+theorem rel_empty (rank : K → Int) : Rel rank (Tree.empty : Tree K V) (fun _ => none) := by
+  simp [Rel, Bal, Ordered, abs]
+
+theorem mapValues_bal (f : K → V → V) (t : Tree K V) :
+    height (mapValues f t) = height t ∧ (Bal t → Bal (mapValues f t)) := by
+  induction t with
+  | empty => simp [mapValues]
+  | leaf k v => simp [mapValues, Bal]
+  | node h k v l r ihl ihr =>
+    refine ⟨by simp [mapValues], ?_⟩
+    intro hb
+    simp only [Bal] at hb ⊢
+    simp only [mapValues, Bal, ihl.1, ihr.1]
+    exact ⟨ihl.2 hb.1, ihr.2 hb.2.1, hb.2.2⟩
+
+/-- keys in an ordered tree are unique -/
+theorem ordered_unique {rank : K → Int} {t : Tree K V} (ho : Ordered rank t) {q : K} {w w' : V}
+    (h1 : (q, w) ∈ abs t) (h2 : (q, w') ∈ abs t) : w = w' := by
+  simp only [Ordered] at ho
+  generalize abs t = xs at *
+  induction xs with
+  | nil => simp at h1
+  | cons x xs ih =>
+    simp only [List.pairwise_cons] at ho
+    simp only [List.mem_cons] at h1 h2
+    rcases h1 with h1 | h1 <;> rcases h2 with h2 | h2
+    · rw [← h1] at h2; exact (Prod.mk.inj h2).2.symm ▸ rfl
+    · have := ho.1 _ h2; rw [← h1] at this; simp at this
+    · have := ho.1 _ h1; rw [← h2] at this; simp at this
+    · exact ih ho.2 h1 h2
+
+inductive MOp (K V : Type) where
+  | ins (d s : Nat) (k : K) (v : V)
+  | rem (d s : Nat) (k : K)
+  | fil (d s : Nat) (f : K → V → Bool)
+  | parT (d s : Nat) (f : K → V → Bool)
+  | parF (d s : Nat) (f : K → V → Bool)
+  | splL (d s : Nat) (k : K)
+  | splR (d s : Nat) (k : K)
+  | mapV (d s : Nat) (f : K → V → V)
+
+def setReg {A : Type} (regs : Nat → A) (d : Nat) (x : A) : Nat → A := fun i => if i = d then x else regs i
+
+/-- one operation on the registers of trees (`none` = the std code would panic) -/
+def stepOp (cmp : K → K → Int) (regs : Nat → Tree K V) : MOp K V → Option (Nat → Tree K V)
+  | .ins d s k v => (insert cmp (regs s) k v).map (setReg regs d)
+  | .rem d s k => (remove cmp (regs s) k).map (setReg regs d)
+  | .fil d s f => (filter f (regs s)).map (setReg regs d)
+  | .parT d s f => (partition f (regs s)).map (fun p => setReg regs d p.1)
+  | .parF d s f => (partition f (regs s)).map (fun p => setReg regs d p.2)
+  | .splL d s k => (split cmp (regs s) k).map (fun p => setReg regs d p.1)
+  | .splR d s k => (split cmp (regs s) k).map (fun p => setReg regs d p.2.2)
+  | .mapV d s f => some (setReg regs d (mapValues f (regs s)))
+
+/-- the same operation on registers of mathematical finite maps -/
+def specOp (rank : K → Int) (ms : Nat → K → Option V) : MOp K V → (Nat → K → Option V)
+  | .ins d s k v => setReg ms d (fun q => if q = k then some v else ms s q)
+  | .rem d s k => setReg ms d (fun q => if q = k then none else ms s q)
+  | .fil d s f => setReg ms d (fun q => (ms s q).filter (f q))
+  | .parT d s f => setReg ms d (fun q => (ms s q).filter (f q))
+  | .parF d s f => setReg ms d (fun q => (ms s q).filter (fun w => !f q w))
+  | .splL d s k => setReg ms d (fun q => if rank q < rank k then ms s q else none)
+  | .splR d s k => setReg ms d (fun q => if rank k < rank q then ms s q else none)
+  | .mapV d s f => setReg ms d (fun q => (ms s q).map (f q))
+
+def runOps (cmp : K → K → Int) : (Nat → Tree K V) → List (MOp K V) → Option (Nat → Tree K V)
+  | regs, [] => some regs
+  | regs, op :: ops =>
+    match stepOp cmp regs op with
+    | none => none
+    | some regs' => runOps cmp regs' ops
+
+def specOps (rank : K → Int) : (Nat → K → Option V) → List (MOp K V) → (Nat → K → Option V)
+  | ms, [] => ms
+  | ms, op :: ops => specOps rank (specOp rank ms op) ops
+
+theorem rel_set {rank : K → Int} {regs : Nat → Tree K V} {ms : Nat → K → Option V}
+    (h : ∀ i, Rel rank (regs i) (ms i)) (d : Nat) {t : Tree K V} {m : K → Option V} (ht : Rel rank t m) :
+    ∀ i, Rel rank (setReg regs d t i) (setReg ms d m i) := by
+  intro i
+  simp only [setReg]
+  split
+  · exact ht
+  · exact h i
+
+theorem rel_filter {rank : K → Int} {t t' : Tree K V} {m : K → Option V} (g : K → V → Bool)
+    (hr : Rel rank t m) (b : Bal t') (a : abs t' = (abs t).filter (fun p => g p.1 p.2)) :
+    Rel rank t' (fun q => (m q).filter (g q)) := by
+  refine ⟨b, ?_, ?_⟩
+  · simp only [Ordered, a]; exact hr.2.1.sublist List.filter_sublist
+  · intro q w
+    rw [a, List.mem_filter, hr.2.2 q w]
+    simp [Option.filter_eq_some_iff]
+
+theorem step_refines {cmp : K → K → Int} {rank : K → Int} (hc : Lawful cmp rank)
+    (regs : Nat → Tree K V) (ms : Nat → K → Option V) (h : ∀ i, Rel rank (regs i) (ms i)) (op : MOp K V) :
+    ∃ regs', stepOp cmp regs op = some regs' ∧ ∀ i, Rel rank (regs' i) (specOp rank ms op i) := by
+  cases op with
+  | ins d s k v =>
+    obtain ⟨b, o, g⟩ := h s
+    obtain ⟨t', e, b', o', m, _⟩ := insert_spec hc (regs s) k v b o
+    refine ⟨_, by simp [stepOp, e], rel_set h d ⟨b', o', ?_⟩⟩
+    intro q w
+    rw [m]
+    by_cases c : q = k
+    · subst c; simp; exact eq_comm
+    · simp [c, g q w]
+  | rem d s k =>
+    obtain ⟨b, o, g⟩ := h s
+    obtain ⟨t', e, b', o', m, _⟩ := remove_spec hc (regs s) k b o
+    refine ⟨_, by simp [stepOp, e], rel_set h d ⟨b', o', ?_⟩⟩
+    intro q w
+    rw [m]
+    by_cases c : q = k
+    · subst c; simp
+    · simp [c, g q w]
+  | fil d s f =>
+    obtain ⟨t', e, b', a⟩ := filter_spec f (regs s) (h s).1
+    exact ⟨_, by simp [stepOp, e], rel_set h d (rel_filter f (h s) b' a)⟩
+  | parT d s f =>
+    obtain ⟨x, y, e, b1, b2, a1, a2⟩ := partition_spec f (regs s) (h s).1
+    exact ⟨_, by simp [stepOp, e], rel_set h d (rel_filter f (h s) b1 a1)⟩
+  | parF d s f =>
+    obtain ⟨x, y, e, b1, b2, a1, a2⟩ := partition_spec f (regs s) (h s).1
+    exact ⟨_, by simp [stepOp, e], rel_set h d (rel_filter (fun k v => !f k v) (h s) b2 a2)⟩
+  | splL d s k =>
+    obtain ⟨b, o, g⟩ := h s
+    obtain ⟨l, pres, r, e, b1, b2, a, g1, g2⟩ := split_spec hc (regs s) k b o
+    have o' := o
+    simp only [Ordered, a] at o'
+    refine ⟨_, by simp [stepOp, e], rel_set h d ⟨b1, ?_, ?_⟩⟩
+    · simp only [Ordered]; exact (List.pairwise_append.1 (List.pairwise_append.1 o').1).1
+    · intro q w
+      constructor
+      · intro hm
+        have := g1 _ hm
+        simp only at this
+        simp only [this, if_true]
+        exact (g q w).1 (by rw [a]; simp [hm])
+      · intro hm
+        simp only [] at hm
+        split at hm
+        · rename_i lt
+          have hin := (g q w).2 hm
+          rw [a] at hin
+          simp only [List.mem_append] at hin
+          rcases hin with (h1 | h1) | h1
+          · exact h1
+          · cases pres with
+            | none => simp [midList] at h1
+            | some w' => simp [midList] at h1; rw [h1.1] at lt; omega
+          · have := g2 _ h1; simp only at this; omega
+        · simp at hm
+  | splR d s k =>
+    obtain ⟨b, o, g⟩ := h s
+    obtain ⟨l, pres, r, e, b1, b2, a, g1, g2⟩ := split_spec hc (regs s) k b o
+    have o' := o
+    simp only [Ordered, a] at o'
+    refine ⟨_, by simp [stepOp, e], rel_set h d ⟨b2, ?_, ?_⟩⟩
+    · simp only [Ordered]; exact (List.pairwise_append.1 o').2.1
+    · intro q w
+      constructor
+      · intro hm
+        have := g2 _ hm
+        simp only at this
+        simp only [this, if_true]
+        exact (g q w).1 (by rw [a]; simp [hm])
+      · intro hm
+        simp only [] at hm
+        split at hm
+        · rename_i lt
+          have hin := (g q w).2 hm
+          rw [a] at hin
+          simp only [List.mem_append] at hin
+          rcases hin with (h1 | h1) | h1
+          · have := g1 _ h1; simp only at this; omega
+          · cases pres with
+            | none => simp [midList] at h1
+            | some w' => simp [midList] at h1; rw [h1.1] at lt; omega
+          · exact h1
+        · simp at hm
+  | mapV d s f =>
+    obtain ⟨b, o, g⟩ := h s
+    refine ⟨_, rfl, rel_set h d ⟨(mapValues_bal f (regs s)).2 b, ?_, ?_⟩⟩
+    · simp only [Ordered, mapValues_refines, List.pairwise_map]
+      exact o
+    · intro q w
+      rw [mapValues_refines, List.mem_map]
+      constructor
+      · rintro ⟨⟨q', w'⟩, hin, e⟩
+        simp only [Prod.mk.injEq] at e
+        obtain ⟨e1, e2⟩ := e
+        subst e1
+        show Option.map (f q') (ms s q') = some w; rw [(g q' w').1 hin]; simp [e2]
+      · intro hm
+        simp only [] at hm
+        cases hq : ms s q with
+        | none => simp [hq] at hm
+        | some w' =>
+          simp [hq] at hm
+          exact ⟨(q, w'), (g q w').2 hq, by simp [hm]⟩
+
+/-- **Histories mixing all proved operations** on any number of map registers. -/
+theorem ops_refine_lemma {cmp : K → K → Int} {rank : K → Int} (hc : Lawful cmp rank)
+    (ops : List (MOp K V)) (regs : Nat → Tree K V) (ms : Nat → K → Option V)
+    (h : ∀ i, Rel rank (regs i) (ms i)) :
+    ∃ regs', runOps cmp regs ops = some regs' ∧ ∀ i, Rel rank (regs' i) (specOps rank ms ops i) := by
+  induction ops generalizing regs ms with
+  | nil => exact ⟨regs, rfl, h⟩
+  | cons op ops ih =>
+    obtain ⟨r1, e1, h1⟩ := step_refines hc regs ms h op
+    obtain ⟨r2, e2, h2⟩ := ih r1 _ h1
+    exact ⟨r2, by simp [runOps, e1, e2], h2⟩
+
 end SamVerif.StdMap
